@@ -279,7 +279,14 @@ class ExecRun:
                               c.get("cancel_at"), json.dumps(c.get("dbg"), sort_keys=True)))
                 if len(samples) < 3:
                     samples.append(sample_of(c))
+        actions = {}
+        for r in self.results.values():
+            t = r.get("taken")
+            if isinstance(t, dict):
+                for k, v in t.items():
+                    actions[k] = actions.get(k, 0) + v
         cov = {
+            "actions_taken": actions, "actions_never_taken": sorted(k for k, v in actions.items() if v == 0),
             "states": max(self.states, 0), "transitions": max(self.trans, 0),
             "traces_validated_against_impl": validated,
             "samples": samples or [sample_of(c) for c in self.cases[:1]] or [{"note": "no case"}],
